@@ -1382,7 +1382,7 @@ func ruleC13Ctl(c *Ctx) {
 			rets = append(rets, r)
 		}
 		c.Guard(rule, fn, rets, "return", nil, called("(*sync.WaitGroup).Wait"))
-		c.Guard(rule, fn, nilErrorReturns(fn), "return nil", nil, atom("no per-replica failure recorded", "+len(var(complit).Errors) ==0"))
+		c.Guard(rule, fn, nilErrorReturns(fn), "return nil", nil, errorsEmpty(fn, "no per-replica failure recorded"))
 		fanoutErrorType(c, rule, fn)
 		var gos []ssa.Instruction
 		eachInstr(fn, func(in ssa.Instruction) {
@@ -1481,7 +1481,7 @@ func ruleC13Ctl(c *Ctx) {
 		okRets := successReturns(fn)
 		c.Guard(rule, fn, okRets, "return snapshot,nil", nil,
 			called("(*sync.WaitGroup).Wait"),
-			atom("no fetch failed", "+len(var(complit).Errors) ==0"),
+			errorsEmpty(fn, "no fetch failed"),
 			atom("a chain from every backend", "+len($0.backends) -len(makemap) ==0"))
 		// the agreement loop over the collected chains: in this function, or in a helper that is
 		// handed the map of chains (its call then sits behind the three facts above, being returned)
@@ -1511,7 +1511,7 @@ func ruleC13Ctl(c *Ctx) {
 						exec, ER, M = h, HR, fmt.Sprintf("$%d", k)
 						c.Guard(rule, fn, []ssa.Instruction{in}, "agreement check by "+FnName(h), nil,
 							called("(*sync.WaitGroup).Wait"),
-							atom("no fetch failed", "+len(var(complit).Errors) ==0"),
+							errorsEmpty(fn, "no fetch failed"),
 							atom("a chain from every backend", "+len($0.backends) -len(makemap) ==0"))
 						// its verdict is what the function returns
 						for _, r := range okRets {
@@ -1569,8 +1569,8 @@ func ruleC13Ctl(c *Ctx) {
 	if fn := c.Anchor(rule, fRepl+"SetCheckpoint"); fn != nil {
 		c.Guard(rule, fn, nilErrorReturns(fn), "return nil", nil,
 			called("(*sync.WaitGroup).Wait"),
-			atom("no store failed", "+len(var(complit).Errors) ==0"),
-			atom("every backend stored it", "+len($0.backends) -var(int) ==0"))
+			errorsEmpty(fn, "no store failed"),
+			atomMatching(fn, "every backend stored it", `^\+len\(\$0\.backends\) -(var\(int[#0-9]*\)|[^ ]*complit[^ ]*) ==0$`))
 	}
 	c.Floor(rule, 20)
 }
@@ -1672,7 +1672,7 @@ func ruleC16Ctl(c *Ctx) {
 			}
 		})
 		c.Guard(rule, f, gos, "go resize", nil, atom("backend not ERR", `+"ERR" -$0.backends[*].mode !=0`))
-		c.Guard(rule, f, nilErrorReturns(f), "return nil", nil, called("(*sync.WaitGroup).Wait"), atom("no replica failed", "+len(var(complit).Errors) ==0"))
+		c.Guard(rule, f, nilErrorReturns(f), "return nil", nil, called("(*sync.WaitGroup).Wait"), errorsEmpty(f, "no replica failed"))
 		fanoutErrorType(c, rule, f)
 	}
 	c.Floor(rule, 12)
